@@ -247,7 +247,7 @@ Proof.
   intros [HK [Hw1 [Hub1 Hmx1]]] [_ [Hw2 [Hub2 Hmx2]]] Hnd1 Hnd2 Hks Hls Hp1 Hp2.
   split; [|exact Hls].
   assert (Hequiv : forall a b, In a g1 -> In b g2 -> kmers_perm a b -> node_equiv K stranded mode a b).
-  { intros a b Ha Hb Hab. destruct (Hp1 _ Ha) as [Hia Hca]. destruct (Hp2 _ Hb) as [Hib Hcb].
+  { intros a b Ha Hb Hab. destruct (Hp1 _ Ha) as [Hia [Hca _]]. destruct (Hp2 _ Hb) as [Hib [Hcb _]].
     split; [exact Hab|]. split.
     - rewrite Hia, Hib. now apply Permutation_map.
     - intros Hm. rewrite Forall_forall in Hw1. pose proof (node_kmers_nonempty a HK (Hw1 _ Ha)) as Hne.
